@@ -126,6 +126,40 @@ Definition bi_slice (args : list value) : outcome value :=
   | _ => Err
   end.
 
+(* ---------- the character-based variants proposed in fixes/C14-string-chars.diff ----------
+   (len / head / tail / slice of a string through str::chars(), like indexing and spreading);
+   lists are handled as before.  Not the current code: used by the `_fixed` theorems and, in the
+   correspondence, as the only accepted alternative on inputs of the open finding class. *)
+Definition bi_len_chars (args : list value) : outcome value :=
+  do a0 <- arg args 0;
+  match a0 with
+  | VStr s => Ok (VNum (num_of_nat (length (chars s))))          (* s.chars().count() *)
+  | _ => bi_len args
+  end.
+Definition bi_head_chars (args : list value) : outcome value :=
+  do a0 <- arg args 0;
+  match a0 with
+  | VStr s => Ok (VStr (match chars s with ch :: _ => ch | [] => EmptyString end))
+  | _ => bi_head args
+  end.
+Definition bi_tail_chars (args : list value) : outcome value :=
+  do a0 <- arg args 0;
+  match a0 with
+  | VStr s => Ok (VStr (String.concat EmptyString (tl (chars s))))
+  | _ => bi_tail args
+  end.
+Definition bi_slice_chars (args : list value) : outcome value :=
+  do a1 <- arg args 1; do start_f <- as_number a1; let start := as_usize start_f in
+  do a2 <- arg args 2; do end_f <- as_number a2; let end_ := as_usize end_f in
+  do a0 <- arg args 0;
+  match a0 with
+  | VStr s => match slice_get (chars s) start end_ with
+              | Some cs => Ok (VStr (String.concat EmptyString cs))
+              | None => Err
+              end
+  | _ => bi_slice args
+  end.
+
 (* ---------- concat ---------- *)
 Fixpoint concat_args (args : list value) : list value :=
   match args with
